@@ -190,6 +190,7 @@ void ApiRun::generate() {
 int ApiRun::pick_cif(uint32_t x) { std::vector<int> v; for (size_t i = 0; i < cifs.size(); ++i) if (cifs[i].cif) v.push_back((int) i); return v.empty() ? -1 : v[x % v.size()]; }
 int ApiRun::pick_cont(uint32_t x, bool need_free_cif) {
     if (forced_cont >= 0) return (conts[(size_t) forced_cont].h && (!need_free_cif || cifs[(size_t) conts[(size_t) forced_cont].cif].iter < 0)) ? forced_cont : -1;
+    if (need_free_cif && beside_ok) { int b = pick_cont_beside_iter(x); if (b >= 0) { g_stats.inc("api.query_beside_iterator"); return b; } }
     std::vector<int> v;
     for (size_t i = 0; i < conts.size(); ++i) if (conts[i].h && (!need_free_cif || cifs[(size_t) conts[i].cif].iter < 0)) v.push_back((int) i);
     if (v.empty() || (x % 7 == 0 && conts.size() < 30)) {
